@@ -24,11 +24,12 @@ type Shape struct {
 	NotAllowed   bool `json:"not_allowed"`
 	CustomNF     bool `json:"custom_not_found"`
 	CustomNA     bool `json:"custom_not_allowed"`
+	Hook         bool `json:"on_panic_hook"`
 }
 
 func (s Shape) String() string {
-	return fmt.Sprintf("globals=%d(apart=%v) group=%d route=%d(later=%v) cache=%d notAllowed=%v customNF=%v customNA=%v",
-		s.Globals, s.GlobalsApart, s.GroupMW, s.RouteMW, s.RouteMWLater, s.Cache, s.NotAllowed, s.CustomNF, s.CustomNA)
+	return fmt.Sprintf("globals=%d(apart=%v) group=%d route=%d(later=%v) cache=%d notAllowed=%v customNF=%v customNA=%v hook=%v",
+		s.Globals, s.GlobalsApart, s.GroupMW, s.RouteMW, s.RouteMWLater, s.Cache, s.NotAllowed, s.CustomNF, s.CustomNA, s.Hook)
 }
 
 // Req is a request kind.
@@ -122,6 +123,19 @@ func Build(s Shape) *rux.Router {
 	} else {
 		r.Group("/g", func() { route("/s", "GS", "GET") })
 	}
+	// a panicking route and a route that re-dispatches with HandleContext (used as sequential history)
+	route("/boom", "BOOM", "GET")
+	r.GET("/boom/now", func(c *rux.Context) { panic("boom") })
+	r.GET("/redir", func(c *rux.Context) {
+		c.Req.URL.Path = "/a"
+		c.Router().HandleContext(c)
+	})
+	if s.Hook {
+		r.OnPanic = func(c *rux.Context) {
+			c.SetStatus(500)
+			c.WriteString("recovered")
+		}
+	}
 	if s.CustomNF {
 		r.NotFound(mw("nf0"), func(c *rux.Context) { c.Text(404, "custom-not-found "+c.Req.URL.Path) })
 	}
@@ -145,9 +159,9 @@ type Rec struct {
 	Thread int
 }
 
-func NewRec() *Rec                   { return &Rec{H: http.Header{}} }
-func (w *Rec) Header() http.Header   { return w.H }
-func (w *Rec) WriteHeader(code int)  { w.NWH++; w.Code = code }
+func NewRec() *Rec                  { return &Rec{H: http.Header{}} }
+func (w *Rec) Header() http.Header  { return w.H }
+func (w *Rec) WriteHeader(code int) { w.NWH++; w.Code = code }
 func (w *Rec) Write(b []byte) (int, error) {
 	w.Body = append(w.Body, b...)
 	return len(b), nil
@@ -184,6 +198,7 @@ func Shapes(thorough bool) []Shape {
 				s.RouteMWLater = i%3 == 0
 				s.CustomNF = i%4 == 1
 				s.CustomNA = i%4 == 2
+				s.Hook = i%2 == 1
 				out = append(out, s)
 			}
 		}
@@ -192,7 +207,7 @@ func Shapes(thorough bool) []Shape {
 		for _, g := range []int{2, 3} {
 			for _, c := range []int{-1, 0, 1, 2} {
 				for v := 0; v < 4; v++ {
-					out = append(out, Shape{Globals: g, GlobalsApart: true, Cache: c, NotAllowed: v&1 == 0, GroupMW: 1, RouteMW: 2, RouteMWLater: v&2 != 0, CustomNF: v == 1, CustomNA: v == 2})
+					out = append(out, Shape{Globals: g, GlobalsApart: true, Cache: c, NotAllowed: v&1 == 0, GroupMW: 1, RouteMW: 2, RouteMWLater: v&2 != 0, CustomNF: v == 1, CustomNA: v == 2, Hook: v >= 2})
 				}
 			}
 		}
